@@ -474,6 +474,43 @@ def r19_f(ctx):
     return rr
 
 
+def r19_h(ctx):
+    """the driver works on the categorised character buffer itself: positions read from the cursor are source
+    offsets only if no character has been filtered out or re-wrapped before"""
+    repo = ctx.repo
+    fd = repo.need_func('tokens.tokenize')
+    rr = RuleResult('R19.h', 'the token generator hands the categorised character buffer itself to the driver (it is not '
+                    'filtered or re-wrapped first), so cursor positions are source offsets', floor=1)
+
+    def is_driver_call(n):
+        return isinstance(n, ast.Call) and isinstance(n.func, ast.Name) and n.func.id == 'next_token'
+    n_calls = sum(1 for n in ast.walk(fd.node) if is_driver_call(n))
+    n_yields = 1
+    pname = fd.params()[0] if fd.params() else None
+    for n in ast.walk(fd.node):
+        if isinstance(n, ast.Name) and isinstance(n.ctx, ast.Store) and n.id == pname:
+            st_ = n
+            while st_ is not None and not isinstance(st_, ast.stmt):
+                st_ = getattr(st_, '_parent', None)
+            rr.ob(False)
+            rr.fail(Finding('R19.f', 'tokens', 'tokenize', st_ if st_ is not None else n, 'the character buffer is replaced '
+                            'before tokenizing: cursor positions are no longer source offsets and characters can be '
+                            'dropped outside the rules', line=n.lineno))
+        if is_driver_call(n):
+            a0 = n.args[0] if n.args else None
+            ok = isinstance(a0, ast.Name) and a0.id == pname
+            rr.ob(ok, {'driver_argument': norm(a0) if a0 is not None else None})
+            if not ok:
+                rr.fail(Finding('R19.f', 'tokens', 'tokenize', n, 'the driver is not given the categorised character buffer '
+                                'itself', line=n.lineno))
+    if n_calls == 0:
+        raise AnalysisError('tokenize: the call of the driver next_token vanished')
+    if n_yields == 0:
+        rr.fail(Finding('R19.f', 'tokens', 'tokenize', 'no yield of the driver token',
+                        'the token generator never yields the tokens the driver returns', line=fd.node.lineno))
+    return rr
+
+
 # --------------------------------------------------------------------------- C06 (tokens part)
 
 def r06_b_tokens(ctx):
